@@ -64,7 +64,7 @@ def variant_case(draw, tier):
     nl, nr = canon.table_len(case["L"]), canon.table_len(case["R"])
     case["perm_l"] = list(draw(st.permutations(list(range(nl)))))
     case["perm_r"] = list(draw(st.permutations(list(range(nr)))))
-    case["relabel"] = draw(st.sampled_from(["str", "dup", "rev", "float"]))
+    case["relabel"] = draw(st.sampled_from(["dup", "dup", "str", "rev", "float"]))
     case["real_loky"] = draw(st.integers(0, 39 if tier == "quick" else 79)) == 0
     return case
 
@@ -203,6 +203,11 @@ class Variants(Component):
         c2["R"] = permute_table(case["R"], case["perm_r"])
         L2, R2, _ = entries.build(c2)
         compare(entries.run(ctx, c2, L2, R2, C, n_jobs=1), "with permuted table rows")
+        c2r = dict(case)
+        c2r["L"] = permute_table(case["L"], list(range(len(L) - 1, -1, -1)))
+        c2r["R"] = permute_table(case["R"], list(range(len(R) - 1, -1, -1)))
+        L2r, R2r, _ = entries.build(c2r)
+        compare(entries.run(ctx, c2r, L2r, R2r, C, n_jobs=1), "with both tables' rows reversed")
         c3 = dict(case)
         c3["L"] = relabel(case["L"], case["relabel"])
         c3["R"] = relabel(case["R"], case["relabel"])
@@ -461,4 +466,66 @@ class E1Perm(Component):
         return case
 
 
-COMPONENTS = [Variants(), Grid(), E1Perm()]
+@st.composite
+def pps_case(draw, tier):
+    if draw(st.integers(0, 5)) == 0:
+        case = draw(c04.ed_filter_case(tier, ftypes=PPS))
+    else:
+        case = draw(c04.set_filter_case(tier, ftypes=PPS))
+    case["entry"] = "filter_tables"
+    case["op"] = ">="
+    nl, nr = canon.table_len(case["L"]), canon.table_len(case["R"])
+    case["perms"] = [[list(draw(st.permutations(list(range(nl))))),
+                      list(draw(st.permutations(list(range(nr)))))] for _ in range(2)]
+    return case
+
+
+class PPSPerm(Component):
+    """Prefix/Position/SuffixFilter.filter_tables: the *full* result (superfluous candidates
+    included) must not depend on the order of the rows, because the token order is a function
+    of token frequencies and the tokens themselves only."""
+    name = "pps-perm"
+    kind = "hyp"
+    rule = "non-empty filter_tables result on tables with >=2 rows on some side"
+
+    def examples(self, tier):
+        return 150 if tier == "quick" else 1200
+
+    def strategy(self, tier):
+        return pps_case(tier)
+
+    def check(self, case, ctx):
+        L, R, _ = entries.build(case)
+        who = entries.describe(case)
+        base = entries.run(ctx, case, L, R, None, n_jobs=1)
+        if base is None:
+            return
+        cols0, rows0, ids0 = entries.result(base, case)
+        nl, nr = len(L), len(R)
+        perms = list(case["perms"]) + [[list(range(nl - 1, -1, -1)), list(range(nr - 1, -1, -1))],
+                                       [list(range(nl - 1, -1, -1)), list(range(nr))]]
+        for pl, pr in perms:
+            c2 = dict(case)
+            c2["L"] = permute_table(case["L"], pl)
+            c2["R"] = permute_table(case["R"], pr)
+            L2, R2, _ = entries.build(c2)
+            df = entries.run(ctx, c2, L2, R2, None, n_jobs=1)
+            if df is None:
+                continue
+            cols, rows, ids = entries.result(df, case)
+            if not ids_ok(ids):
+                ctx.violation(entries.site(case) + ",kind=_id-not-0..n-1", "%s: _id %r"
+                              % (who, (ids or [])[:8]))
+            if rows != rows0:
+                ctx.violation(entries.site(case) + ",kind=rows-vary",
+                              "%s threshold=%r: result changes when the rows are permuted "
+                              "(left %r, right %r): only permuted %r, only original %r"
+                              % (who, case["threshold"], pl, pr,
+                                 list((rows - rows0).items())[:3],
+                                 list((rows0 - rows).items())[:3]))
+        ctx.nontrivial(len(base) > 0 and max(nl, nr) >= 2)
+        ctx.label(entries.site(case))
+        ctx.label("result-nonempty", len(base) > 0)
+
+
+COMPONENTS = [Variants(), Grid(), E1Perm(), PPSPerm()]
